@@ -12,7 +12,7 @@ Everything is read from the AST of the datatype package; nothing is imported or 
 Rules compare the two sides token by token (C14.template: template in grammar, C14.shape: grammar in templates),
 plus the plumbing in between (groups -> assign branches, parse dispatch, from_* constructors, __init__/clone,
 the hour/minute/second properties that share one Time object, truthiness tests on fields that may be 0).
-The thorough tier interprets TimexInference.infer and TimexFormat.format over abstract Timex objects
+C14.roundtrip interprets TimexInference.infer and TimexFormat.format over abstract Timex objects
 (each field None / 0 / non-zero) built from every grammar shape and compares the emitted template with the input.
 """
 import ast
@@ -31,14 +31,17 @@ META = {
             'inclusion both ways, fixed_format_number(x,w) as \\d{w}); parse dispatch reaches every pattern family '
             'and its first-character / split-at-T routing is consistent with the patterns; from_date / '
             'from_date_time / from_time, __init__, clone and the hour/minute/second properties pass homonymous '
-            'fields; no truthiness test on hour/minute/second in inference/format; thorough tier: abstract '
-            'interpretation of infer -> format over the None/0/non-zero shapes of every grammar shape and every '
-            'date x time combination.',
-    'note': 'Not decided: Decimal amount formatting (exponent forms), value ranges of the digit groups (month 13, '
+            'fields; no truthiness test on hour/minute/second in inference/format; the stored duration amount '
+            '(conversion chain followed through locals and single-return helpers, stdlib conversions modelled) prints '
+            'inside the amount group and denotes the parsed number for probe amounts; abstract interpretation of '
+            'infer -> format over the None/0/non-zero shapes of every grammar shape and every date x time combination '
+            '(both tiers).',
+    'note': 'Not decided: amounts other than the probes 1, 10, 100, 1.5, 0.5, 60, 0.25, 2.50 and conversions outside the '
+            'modelled stdlib calls (refused, exit 2), value ranges of the digit groups (month 13, '
             'day 32, year 0000), zero duration amounts (P0D formats to the empty string), the english/ natural '
             'language converters, the (start,end,duration) range form beyond its routing. The quick falsy-zero rule '
             'reports any truthiness test on hour/minute/second in TimexInference/TimexFormat even where an earlier '
-            'None test makes it equivalent (the thorough tier decides those exactly). Inclusion of a padded field '
+            'None test makes it equivalent (C14.roundtrip decides those exactly). Inclusion of a padded field '
             'in a digit group is decided on the full set of w-digit strings when 10^w <= 10000, by representative '
             'strings for amounts.',
     'technique': 'ast + regex syntax trees (sa.rx): shape expansion of the 18 patterns, token-wise alignment with '
@@ -251,6 +254,128 @@ def load_patterns(cx):
     return c, fams
 
 
+def inline_expr(cls, e, local_defs, where, depth=0):
+    """copy of expression e with local names replaced by their defining expressions and calls to single-return
+    helpers of the same class (Cls.h(x) / self.h(x) / cls.h(x)) replaced by the helper's return expression"""
+    if depth > 6:
+        raise AnalysisError('%s: helper/local chain too deep' % where)
+
+    class T(ast.NodeTransformer):
+        def visit_Name(self, n):
+            if isinstance(n.ctx, ast.Load) and n.id in local_defs:
+                return inline_expr(cls, local_defs[n.id], {k: v for k, v in local_defs.items() if k != n.id}, where,
+                                   depth + 1)
+            return n
+
+        def visit_Call(self, n):
+            ch = chain(n.func) or ''
+            parts = ch.split('.')
+            if len(parts) == 2 and parts[0] in (cls.name, 'self', 'cls') and parts[1] in cls.methods:
+                fn = cls.methods[parts[1]]
+                body = [st for st in fn.body if not (isinstance(st, ast.Expr) and isinstance(st.value, ast.Constant))
+                        and not isinstance(st, ast.Pass)]
+                if len(body) != 1 or not isinstance(body[0], ast.Return) or body[0].value is None or n.keywords:
+                    raise AnalysisError('%s: helper %s.%s is not a single return expression' % (where, cls.name, parts[1]))
+                ps = [p for p in params_of(fn) if p not in ('self', 'cls')]
+                if len(ps) != len(n.args):
+                    raise AnalysisError('%s: arity of helper %s' % (where, parts[1]))
+                args = [self.visit(a) for a in n.args]
+                return inline_expr(cls, body[0].value, dict(zip(ps, args)), where, depth + 1)
+            return self.generic_visit(n)
+
+    import copy
+    return T().visit(copy.deepcopy(e))
+
+
+class _Raises(Exception):
+    pass
+
+
+def model_amount(chain_ast, sp, text, where):
+    """what the stored amount is for the extracted text, under a model of the stdlib conversions
+    (Decimal / int / float / str / round, Decimal.normalize / quantize / to_integral_value, str.strip ...)"""
+    import decimal
+
+    def ev(e):
+        if isinstance(e, ast.Subscript) and chain(e.value) == sp:
+            return text
+        if isinstance(e, ast.Constant) and isinstance(e.value, (int, float, str)):
+            return e.value
+        if isinstance(e, ast.Call):
+            ch = chain(e.func) or ''
+            args = [ev(a) for a in e.args]
+            if e.keywords:
+                raise AnalysisError('%s: conversion %s with keyword arguments not modelled' % (where, ch))
+            try:
+                if ch in ('Decimal', 'decimal.Decimal') and len(args) == 1:
+                    return decimal.Decimal(args[0])
+                if ch in ('int', 'float', 'str', 'round', 'abs'):
+                    return getattr(__import__('builtins'), ch)(*args)
+                if isinstance(e.func, ast.Attribute):
+                    recv = ev(e.func.value)
+                    m = e.func.attr
+                    if isinstance(recv, decimal.Decimal) and m in ('normalize', 'quantize', 'to_integral_value',
+                                                                   'to_integral', 'copy_abs'):
+                        return getattr(recv, m)(*args)
+                    if isinstance(recv, str) and m in ('strip', 'lstrip', 'rstrip', 'replace', 'lower', 'upper'):
+                        return getattr(recv, m)(*args)
+            except (ValueError, TypeError, ArithmeticError) as ex:
+                raise _Raises('%s: %s' % (type(ex).__name__, ex))
+            raise AnalysisError('%s: conversion %s not modelled' % (where, ast.unparse(e)))
+        if isinstance(e, ast.BinOp) and isinstance(e.op, (ast.Add, ast.Sub, ast.Mult, ast.Div)):
+            a, b = ev(e.left), ev(e.right)
+            try:
+                return {ast.Add: lambda: a + b, ast.Sub: lambda: a - b, ast.Mult: lambda: a * b,
+                        ast.Div: lambda: a / b}[type(e.op)]()
+            except (ValueError, TypeError, ArithmeticError) as ex:
+                raise _Raises('%s: %s' % (type(ex).__name__, ex))
+        raise AnalysisError('%s: conversion %s not modelled' % (where, ast.unparse(e)))
+    return ev(chain_ast)
+
+
+AMOUNT_PROBES = ('1', '10', '100', '1.5', '0.5', '60', '0.25', '2.50')
+
+
+def rule_amount(cx, chk, fams, handlers):
+    """the text the formatter prints for a duration amount ('{}'.format(field) = str(stored value)) must lie in the
+    amount group of the grammar and denote the number that was parsed"""
+    import decimal
+    tcls = cx.cls('timex', 'Timex')
+    chains = load_assign.chains
+    for hname, (unitgroup, table) in handlers.items():
+        for letter in sorted(table):
+            fld, amt, conv, line = table[letter]
+            v, sp, _ = chains[hname][letter]
+            node = None
+            for lst in fams.values():
+                for src, ln, tree in lst:
+                    if unitgroup in rx.group_names(tree) and rx.find_group(tree, amt):
+                        node = rx.find_group(tree, amt)[0].node
+            if node is None:
+                raise AnalysisError('no pattern has both groups %r and %r' % (unitgroup, amt))
+            where = '%s:%d Timex.%s' % (tcls.mod.rel, line, hname)
+            nf = ast.unparse(v).replace("%s['%s']" % (sp, amt), 'text')
+            bad = None
+            for probe in AMOUNT_PROBES:
+                if not rx.matches(node, probe):
+                    continue
+                try:
+                    val = model_amount(v, sp, probe, where)
+                    printed = '{}'.format(val)
+                    same = rx.matches(node, printed) and decimal.Decimal(printed) == decimal.Decimal(probe)
+                    why = 'is printed as %r' % printed
+                except _Raises as ex:
+                    same, why = False, 'raises %s' % ex
+                except decimal.InvalidOperation:
+                    same, why = False, 'is printed as %r' % printed
+                if not same and bad is None:
+                    bad = (probe, why)
+            chk.judge(bad is None, 'C14.amount', tcls.mod.path, 'Timex.%s[%s] -> %s' % (hname, letter, fld), nf,
+                      'the amount of a P..%s duration is stored as %s: the amount %r %s, which /%s/ does not accept or '
+                      'which is not the same number - the formatted TIMEX does not parse back'
+                      % ((letter, nf) + (bad or ('', '')) + (rx.unparse(node),)), line)
+
+
 def load_assign(cx):
     """Timex.assign_properties -> {group: ('int'|'raw'|'num'|'flag', field, line) | ('handler', name, line)}
     and the unit handlers -> {handler: (unitgroup, {letter: (field, amountgroup, conv)})}"""
@@ -338,6 +463,7 @@ def load_assign(cx):
         raise AnalysisError('Timex.assign_properties: no key dispatch found')
 
     handlers = {}
+    chains = {}
     for hname in sorted({e[1] for e in branches.values() if e[0] == 'handler'}):
         if hname not in c.methods:
             raise AnalysisError('anchor vanished: Timex.%s' % hname)
@@ -345,6 +471,8 @@ def load_assign(cx):
         sp = params_of(hf)[1]
         unitgroup = None
         table = {}
+        chains[hname] = {}
+        hlocals = {}
 
         def sub_key(e):
             if isinstance(e, ast.Subscript) and chain(e.value) == sp:
@@ -359,34 +487,43 @@ def load_assign(cx):
             body = [s for s in st.body if not isinstance(s, ast.Pass)]
             if ok and len(body) == 1 and isinstance(body[0], ast.Assign) and len(body[0].targets) == 1 \
                     and isinstance(body[0].targets[0], ast.Attribute) and chain(body[0].targets[0].value) == 'self':
-                v = body[0].value
-                conv, amt = None, None
-                if isinstance(v, ast.Call) and len(v.args) == 1 and sub_key(v.args[0]):
-                    conv = {'Decimal': 'num', 'decimal.Decimal': 'num', 'float': 'num', 'int': 'int'}.get(chain(v.func))
-                    amt = sub_key(v.args[0])
-                elif sub_key(v):
-                    conv, amt = 'raw', sub_key(v)
-                if conv:
-                    ug = sub_key(t.left)
-                    if unitgroup not in (None, ug):
-                        raise AnalysisError('%s:%d %s tests two different keys' % (c.mod.rel, st.lineno, hname))
-                    unitgroup = ug
-                    table[const_str(t.comparators[0])] = (body[0].targets[0].attr, amt, conv, body[0].lineno)
-                    if len(st.orelse) == 1 and isinstance(st.orelse[0], ast.If):
-                        hbranch(st.orelse[0])
-                    elif st.orelse:
-                        raise AnalysisError('%s:%d %s: unexpected else' % (c.mod.rel, st.lineno, hname))
-                    return
+                where = '%s:%d Timex.%s' % (c.mod.rel, body[0].lineno, hname)
+                v = inline_expr(c, body[0].value, hlocals, where)
+                keys = sorted({sub_key(n) for n in ast.walk(v) if sub_key(n)})
+                if len(keys) != 1:
+                    raise AnalysisError('%s: stored value reads %s of the extracted groups' % (where, keys or 'none'))
+                amt = keys[0]
+                if sub_key(v):
+                    conv = 'raw'
+                elif isinstance(v, ast.Call) and chain(v.func) == 'int':
+                    conv = 'int'
+                else:
+                    conv = 'num'
+                ug = sub_key(t.left)
+                if unitgroup not in (None, ug):
+                    raise AnalysisError('%s:%d %s tests two different keys' % (c.mod.rel, st.lineno, hname))
+                unitgroup = ug
+                letter = const_str(t.comparators[0])
+                table[letter] = (body[0].targets[0].attr, amt, conv, body[0].lineno)
+                chains[hname][letter] = (v, sp, amt)
+                if len(st.orelse) == 1 and isinstance(st.orelse[0], ast.If):
+                    hbranch(st.orelse[0])
+                elif st.orelse:
+                    raise AnalysisError('%s:%d %s: unexpected else' % (c.mod.rel, st.lineno, hname))
+                return
             raise AnalysisError('%s:%d %s: branch not recognised: %s' % (c.mod.rel, st.lineno, hname, ast.unparse(st.test)))
 
         for st in hf.body:
             if isinstance(st, ast.If):
                 hbranch(st)
+            elif isinstance(st, ast.Assign) and len(st.targets) == 1 and isinstance(st.targets[0], ast.Name):
+                hlocals[st.targets[0].id] = st.value
             elif not isinstance(st, (ast.Pass, ast.Expr)):
                 raise AnalysisError('%s:%d %s: statement not recognised' % (c.mod.rel, st.lineno, hname))
         if not table:
             raise AnalysisError('Timex.%s: no unit dispatch found' % hname)
         handlers[hname] = (unitgroup, table)
+    load_assign.chains = chains
     return c, fn, branches, handlers
 
 
@@ -574,8 +711,12 @@ def spec_width(spec):
     return int(m.group(1))
 
 
-def render_arg(node, obj, where):
-    """argument of a template -> Tok('fld') for `obj.f` or `X.fixed_format_number(obj.f, w)`"""
+def render_arg(node, obj, where, env=None):
+    """argument of a template -> Tok('fld') for `obj.f` or `X.fixed_format_number(obj.f, w)`, or a local name that
+    was assigned one of those (env: name -> Tok)"""
+    if isinstance(node, ast.Name) and env and node.id in env:
+        t = env[node.id]
+        return Tok('fld', name=t.name, width=t.width)
     if isinstance(node, ast.Attribute) and chain(node.value) == obj:
         return Tok('fld', name=node.attr)
     if isinstance(node, ast.Call) and (chain(node.func) or '').split('.')[-1] == 'fixed_format_number' \
@@ -583,11 +724,11 @@ def render_arg(node, obj, where):
             and isinstance(node.args[1], ast.Constant) and isinstance(node.args[1].value, int):
         return Tok('fld', name=node.args[0].attr, width=node.args[1].value)
     if isinstance(node, ast.Call) and chain(node.func) == 'str' and len(node.args) == 1:
-        return render_arg(node.args[0], obj, where)
+        return render_arg(node.args[0], obj, where, env)
     raise AnalysisError('%s: template argument not recognised: %s' % (where, ast.unparse(node)))
 
 
-def template_tokens(node, obj, where):
+def template_tokens(node, obj, where, env=None):
     """'..{}..'.format(a, b) | f'..{a}..' | 'literal' -> token list, or None when not a string template"""
     if isinstance(node, ast.Constant) and isinstance(node.value, str):
         return [Tok('lit', text=node.value)] if node.value else []
@@ -597,7 +738,7 @@ def template_tokens(node, obj, where):
             if isinstance(p, ast.Constant):
                 toks.append(Tok('lit', text=p.value))
             else:
-                t = render_arg(p.value, obj, where)
+                t = render_arg(p.value, obj, where, env)
                 if p.format_spec is not None:
                     spec = ''.join(x.value for x in p.format_spec.values if isinstance(x, ast.Constant))
                     if len(p.format_spec.values) != sum(isinstance(x, ast.Constant) for x in p.format_spec.values):
@@ -628,7 +769,7 @@ def template_tokens(node, obj, where):
                 raise AnalysisError('%s: placeholder {%s} not modelled' % (where, fname))
             if i >= len(node.args):
                 raise AnalysisError('%s: placeholder %d has no argument' % (where, i))
-            t = render_arg(node.args[i], obj, where)
+            t = render_arg(node.args[i], obj, where, env)
             w = spec_width(spec)
             t.width = t.width or w
             toks.append(t)
@@ -652,7 +793,11 @@ def load_templates(cx):
         obj = first_param(fn)
         n_ret = 0
 
-        def visit(stmts, guards):
+        def assigned_names(stmts):
+            return {t.id for st in stmts for n in ast.walk(st) if isinstance(n, ast.Assign) for t in n.targets
+                    if isinstance(t, ast.Name)}
+
+        def visit(stmts, guards, env):
             nonlocal n_ret, empties
             for st in stmts:
                 if isinstance(st, ast.Return):
@@ -660,7 +805,7 @@ def load_templates(cx):
                     where = '%s:%d TimexFormat.%s' % (c.mod.rel, st.lineno, name)
                     if st.value is None:
                         raise AnalysisError(where + ': bare return')
-                    toks = template_tokens(st.value, obj, where)
+                    toks = template_tokens(st.value, obj, where, env)
                     if toks is None:
                         raise AnalysisError(where + ': return value is not a string template: ' + ast.unparse(st.value))
                     if not toks:
@@ -669,14 +814,21 @@ def load_templates(cx):
                     gf = sorted({f for g in guards for f in obj_fields_read(g, obj)})
                     out.append(Template(name, st.lineno, toks, gf, ' and '.join(ast.unparse(g) for g in guards)))
                 elif isinstance(st, ast.If):
-                    visit(st.body, guards + [st.test])
-                    visit(st.orelse, guards + [st.test])
+                    visit(st.body, guards + [st.test], dict(env))
+                    visit(st.orelse, guards + [st.test], dict(env))
+                    for nm in assigned_names(st.body) | assigned_names(st.orelse):
+                        env.pop(nm, None)           # value after the if depends on the path: not tracked
+                elif isinstance(st, ast.Assign) and len(st.targets) == 1 and isinstance(st.targets[0], ast.Name):
+                    try:
+                        env[st.targets[0].id] = render_arg(st.value, obj, '', env)
+                    except AnalysisError:
+                        env.pop(st.targets[0].id, None)   # not a field rendering; refused only if a template uses it
                 elif isinstance(st, (ast.Assign, ast.Expr, ast.Pass, ast.AnnAssign)):
                     continue
                 else:
                     raise AnalysisError('%s:%d TimexFormat.%s: statement %s not modelled'
                                         % (c.mod.rel, st.lineno, name, type(st).__name__))
-        visit(fn.body, [])
+        visit(fn.body, [], {})
         if not n_ret:
             raise AnalysisError('TimexFormat.%s has no return' % name)
     if not out:
@@ -1409,6 +1561,9 @@ def run(chk):
              floor=12)
     chk.rule('C14.timeprop', 'hour/minute/second getters and setters address the same component of one shared Time '
                              'object, other components default to 0; fixed_format_number left-pads with 0', floor=15)
+    chk.rule('C14.amount', 'the stored duration amount, as str() prints it, lies in the amount group and denotes the '
+                           'parsed number (conversion chain followed through locals and single-return helpers, stdlib '
+                           'conversions modelled, probe amounts)', floor=5)
     chk.rule('C14.falsy0', 'no truthiness test on hour/minute/second in TimexInference / TimexFormat', floor=3,
              control=True)
     chk.assume('digit groups hold valid calendar values (the checker does not bound month to 12 etc.); only hour, '
@@ -1423,7 +1578,9 @@ def run(chk):
     rule_falsy_zero(cx, chk, shapes)
     chk.extra['shapes'] = len(shapes)
     chk.extra['templates'] = len(templates)
+    rule_amount(cx, chk, fams, handlers)
     chk._c14 = (cx, fams, shapes, templates)
+    rule_roundtrip(chk)
 
 
 # ---------------------------------------------------------------------------------------------------
@@ -1730,6 +1887,11 @@ def abstract_object(cx, init_defaults, sets):
 
 
 def thorough(chk):
+    """nothing beyond the quick tier: the abstract round trip is cheap enough to run always"""
+    return None
+
+
+def rule_roundtrip(chk):
     cx, fams, shapes, templates = chk._c14
     chk.rule('C14.roundtrip', 'abstract round trip: for every grammar shape (and date x time combination) and every '
                               'None/0/non-zero assignment the parser can produce, infer -> format emits exactly the '
